@@ -15,13 +15,13 @@ derivativeIntegral_double_mask_zero derivativeIntegral_grey_zone_counterexample
 ff_derivative_formula ff_derivative_formula_real ffDerivative_entry ff_derivative_is_derivative
 infidelity_derivative_linear integrate_trapezoid selection_is_slice gradient_contractions_rowwise
 indicesFromIdentifiers_examples nCoeffsDerivShapeOk_iff sensitivity_term
-sensitivity_term_fails_at_zero sensitivity_real gradient_source_shape
-gradient_einsum_shape'''.split() + [
+sensitivity_term_fails_at_zero sensitivity_real 
+'''.split() + [
     # the derivative is served through the cache machine of C07 (control matrix with intermediates,
     # then the cached first-order integral): a stale intermediate is a wrong gradient
     'FFVerif.C07.cleanup_freq', 'FFVerif.C07.deriv_spec', 'FFVerif.C07.served_value_is_fresh']
 LEAN_MODULES = ['FFVerif.Props.C11', 'FFVerif.Props.C07']
-PINS = ['pinGetFFDerivative', 'pinGradControlMatrix', 'pinInfidelityDerivative']
+PINS = ['pinGetFFDerivative', 'pinGradControlMatrix', 'pinInfidelityDerivative', 'C11_gradient_source_shape', 'C11_gradient_einsum_shape']
 GEN_SITES = ['cache:cleanup', 'cache:method_bodies', 'const:gradient.masks', 'einsum:gradient_calculate_filter_function_derivative_0',
              'einsum:gradient_infidelity_derivative_0']
 COMPONENTS = ['derivative_integral', 'liouville_A', 'ff_derivative', 'infidelity_derivative']
